@@ -285,6 +285,17 @@ class Gen:
                         if seen.get(key, 0) >= per_kind and not decimal_pos:
                             continue
                         seen[key] = seen.get(key, 0) + 1
+                        if kw == "type-intfloat":
+                            # first the valid twin (the same payload with the integer): a verdict must not be
+                            # remembered under Python equality, where 1 == 1.0 == True
+                            full = next((i[1] for i in pool if i[0] == "valid-all"), None)
+                            if isinstance(full, dict):
+                                if side == "req":
+                                    cases.append(("ok", version, [self.route(action, ("ret", snake(valid_resps[0][1])))],
+                                                  self.frame("k-%d" % len(cases), action, full)))
+                                else:
+                                    cases.append(("ok", version, [self.route(action, ("ret", snake(full)))],
+                                                  self.frame("k-%d" % len(cases), action, valid_reqs[0][1])))
                         if side == "req":
                             mine = self.route(action, ("ret", snake(valid_resps[0][1])), after=("ret",))
                             raw = self.frame("k-%d" % len(cases), action, b[1])
